@@ -185,6 +185,18 @@ func runC15(c *fw.Case) (o fw.Outcome) {
 	o.Nontrivial = true
 	o.Tag(fmt.Sprintf("sqn-mode=%d", mode))
 
+	// a call the library refuses (arguments of the wrong length) right before, with otherwise the same values: whatever
+	// it does on its error path, the good calls that follow are judged as always
+	if c.Idx%8 == 5 {
+		func() {
+			defer func() { recover() }()
+			short := r.Intn(16)
+			milenage.GenerateOPC(k[:short], op)
+			milenage.F1(op, k[:short], rnd, sqnNet, amf, make([]byte, 8), make([]byte, 8))
+			milenage.F2345(op, k, rnd[:short], make([]byte, 8), make([]byte, 16), make([]byte, 16), make([]byte, 6), make([]byte, 6))
+		}()
+		o.Count("refused_calls_before", 3)
+	}
 	// ---- functions against TS 35.206
 	opc := sec.ComputeOPc(k, op)
 	gotOpc, err := milenage.GenerateOPC(k, op)
